@@ -8,6 +8,7 @@ from emu_sv.lindblad_operator import RydbergLindbladian
 
 from pulser.backend import Results, Observable, State, EmulationConfig
 from emu_base import SequenceData, get_max_rss
+from emu_base.utils import aggregation_kwargs
 
 from emu_sv.state_vector import StateVector
 from emu_sv.density_matrix_state import DensityMatrix
@@ -24,7 +25,9 @@ class Statistics(Observable):
         data: list[float],
         timestep_count: int,
     ):
-        super().__init__(evaluation_times=evaluation_times)
+        super().__init__(
+            evaluation_times=evaluation_times, **aggregation_kwargs("SKIP")
+        )
         self.data = data
         self.timestep_count = timestep_count
 
